@@ -1,5 +1,6 @@
 //! pdbverif: drives the real parity-db and emits protocol traces for the Lean model driver,
 //! plus independent oracle checks.  One sub-command per model slice.
+mod c04;
 mod c05;
 mod c06;
 mod c08;
@@ -7,8 +8,10 @@ mod c10;
 mod c11;
 mod c12;
 mod c17;
+mod c18;
 mod interpose;
 mod c13;
+mod c15;
 mod c16;
 mod c19;
 mod c20;
@@ -37,6 +40,9 @@ fn dispatch(cmd: &str) -> Option<RunFn> {
 		"c17" => c17::run,
 		"c20" => c20::run,
 		"c05" => c05::run,
+		"c04" => c04::run,
+		"c15" => c15::run,
+		"c18" => c18::run,
 		"c11" => c11::run,
 		_ => return None,
 	})
@@ -49,6 +55,12 @@ fn main() {
 		std::process::exit(2);
 	}
 	let cmd = args[1].as_str();
+	if cmd == "c15-child" {
+		std::process::exit(c15::child_main(&args[2..]));
+	}
+	if cmd == "c18-child" {
+		std::process::exit(c18::child_main(&args[2..]));
+	}
 	let seed: u64 = arg(&args, "--seed").map(|s| s.parse().unwrap()).unwrap_or(1);
 	let cases: u64 = arg(&args, "--cases").map(|s| s.parse().unwrap()).unwrap_or(10);
 	let out = arg(&args, "--out");
